@@ -13,3 +13,6 @@ import Aiorpcx.C18.Props
 import Aiorpcx.C03.Props
 import Aiorpcx.C11.Deadline
 import Aiorpcx.C11.Early
+import Aiorpcx.C13.Props
+import Aiorpcx.C14.Props
+import Aiorpcx.C20.Props
